@@ -42,7 +42,10 @@ def run_programs(programs, names=(), shards=None):
 # ------------------------------------------------------------------ the broad generator (C13)
 
 NAMES = ["alpha", "beta", "gamma", "delta", "epsilon", "zeta", "eta", "theta", "iota", "kappa", "lam-bda", "mu?",
-         "nu", "xi", "omicron", "pi-two", "rho", "sigma", "tau", "upsilon"]
+         "nu", "xi", "omicron", "pi-two", "rho", "sigma", "tau", "upsilon",
+         # mangled names longer than 32 characters (generated identifiers embed the name)
+         "a-rather-long-descriptive-variable-name", "another-quite-long-name-for-a-binding?",
+         "yet-one-more-long-identifier-used-here"]
 GLOBALS = ["g-one", "g2", "gthree", "g-four", "gfive"]
 
 
